@@ -582,6 +582,11 @@ impl VerifSystem
             return Err(io::Error::new(io::ErrorKind::Other, "not writable"));
         }
         let g = self.lock();
+        if g.frozen && std::thread::panicking()
+        {
+            // e.g. a BufWriter flushing in its Drop while the killed process unwinds: those bytes never reach the disk
+            return Err(io::Error::new(io::ErrorKind::Other, "process is dead"));
+        }
         let op = Op::Write(f.path.clone(), buf.len());
         let (mut g, d) = self.mutation_point(g, &op);
         let n = match d
@@ -654,6 +659,7 @@ impl VerifSystem
                 return Err(if weird { SystemError::Weird } else { SystemError::NotFound });
             }
         }
+        if g.frozen && std::thread::panicking() { return Err(SystemError::Weird); } // a Drop running while the killed process unwinds: a dead process does nothing
         let (mut g, d) = self.mutation_point(g, &op);
         if let MutDecision::Crash = d
         {
@@ -696,6 +702,7 @@ impl VerifSystem
             }
             Some(i) =>
             {
+                if g.frozen && std::thread::panicking() { return Err(SystemError::Weird); }
                 let (mut g, d) = self.mutation_point(g, &op);
                 if let MutDecision::Crash = d
                 {
@@ -846,6 +853,7 @@ impl System for VerifSystem
             g.log(op, false);
             return Err(if weird { SystemError::Weird } else { SystemError::NotFound });
         }
+        if g.frozen && std::thread::panicking() { return Err(SystemError::Weird); } // a Drop running while the killed process unwinds: a dead process does nothing
         let (mut g, d) = self.mutation_point(g, &op);
         if let MutDecision::Crash = d
         {
@@ -960,6 +968,7 @@ impl System for VerifSystem
             (Some(a), Some(b)) => if g.inodes[a].data == g.inodes[b].data { "dst=same" } else { "dst=different" },
             (None, Some(_)) => "dst=different",
         };
+        if g.frozen && std::thread::panicking() { return Err(SystemError::Weird); } // a Drop running while the killed process unwinds: a dead process does nothing
         let (mut g, d) = self.mutation_point(g, &op);
         if let MutDecision::Crash = d
         {
@@ -1037,6 +1046,11 @@ impl System for VerifSystem
         let (reads, writes) = (std::mem::take(&mut view.reads), std::mem::take(&mut view.writes));
         let mut g = self.lock();
         let end_seq = g.seq;
+        if command_script.lines.is_empty()
+        {
+            // an empty command section: nothing ran, nothing to record
+            return results;
+        }
         g.cmds.push(CmdExec { seq, thread: sched::current_thread_id(), lines: command_script.lines.clone(), codes, reads, writes, entry_sources, end_seq });
         results
     }
